@@ -415,6 +415,58 @@ async fn main(plan: Plan) -> Outcome {
 
     let detection = plan.ka_interval + plan.ka_timeout;
     let mut idx = 0u64;
+    // Callers that go away (1 in 3 sampled runs, before any fault): six requests held by
+    // their nodes are abandoned by their callers a quarter of the hold time in; twelve fresh
+    // requests follow at once on the same pools. A response for a stream nobody waits on is
+    // one of the property's cases: nobody is handed another request's answer, nobody hangs,
+    // and (mock's monitor) no stream id is carried by two unanswered requests.
+    if plan.enumerated.is_none() && tape::chance("c10:abandon_phase", 1, 3) {
+        let mut abandoned = Vec::new();
+        for _ in 0..6 {
+            idx += 1;
+            let m = idx * 16 + F_HOLD;
+            let session = session.clone();
+            let give_up = plan.hold / 4;
+            abandoned.push(tokio::spawn(async move {
+                let mut st = Statement::new(client::q_marker(m));
+                st.set_is_idempotent(true);
+                let _ = tokio::time::timeout(Duration::from_nanos(give_up.max(1)), session.query_unpaged(st, ())).await;
+            }));
+        }
+        for h in abandoned {
+            let _ = h.await;
+        }
+        world::world().fault(Fault::Cancel);
+        world::world().probe("callers_abandoned_held_requests");
+        let mut fresh = Vec::new();
+        for _ in 0..12 {
+            idx += 1;
+            let m = idx * 16;
+            let session = session.clone();
+            fresh.push(tokio::spawn(async move {
+                let mut st = Statement::new(client::q_marker(m));
+                st.set_is_idempotent(true);
+                (m, tokio::time::timeout(Duration::from_secs(60), session.query_unpaged(st, ())).await)
+            }));
+        }
+        for h in fresh {
+            match h.await {
+                Ok((m, Ok(Ok(qr)))) => {
+                    if let Err(e) = client::check_marker_rows(qr, m) {
+                        out.violation("c10.attribution", e);
+                    }
+                }
+                Ok((m, Ok(Err(e)))) => out.violation(
+                    "c10.failed_without_fault",
+                    format!("request marker {m}, submitted right after other callers abandoned theirs, failed although no fault was injected: {}", client::short_err(&e)),
+                ),
+                Ok((m, Err(_))) => out.violation("c10.hang", format!("request marker {m}, submitted right after other callers abandoned theirs, did not return within 60 virtual s")),
+                Err(e) => out.violation("c10.client_task", format!("{e}")),
+            }
+        }
+        // Let the held answers arrive (for streams nobody waits on any more).
+        world::sleep_ns(plan.hold + SEC).await;
+    }
     let mut fired_any = false;
     let mut total_ok = 0u64;
     let mut total_err = 0u64;
